@@ -111,10 +111,9 @@ Definition clear_book (c : cfg) (s : state) : state :=
   | _ => s
   end.
 
-(* evict one victim (several for LFU).  EvIndexError = IndexError raised inside the wrapper;
-   EvSelf = mru evicted the key of the current call and returns without recording its use.
+(* evict one victim (several for LFU).  EvIndexError = IndexError raised inside the wrapper.
    [k] is the key of the current call, [orc] the key random.choice returned (RR). *)
-Inductive evres := EvOk | EvIndexError | EvSelf.
+Inductive evres := EvOk | EvIndexError.
 Definition evict (c : cfg) (s : state) (k orc : key) : state * evres :=
   match c_alg c with
   | LFU => (fold_left (lfu_evict1 c) (lfu_victims (lfu_n (c_max c)) (usec s)) s, EvOk)
@@ -133,7 +132,7 @@ Definition evict (c : cfg) (s : state) (k orc : key) : state * evres :=
       let '(v, q) := match pop_right (queue s) with Some (v, q) => (v, q) | None => (k, []) end in
       let s1 := w_queue s q in
       let s2 := if archived_ c s1 then dump_ c s1 [v] else s1 in
-      (w_mem s2 (del (smem s2) v), if Z.eqb v k then EvSelf else EvOk)
+      (w_mem s2 (del (smem s2) v), EvOk)
   | RR =>
       let s1 := if archived_ c s then dump_ c s [orc] else s in
       (w_mem s1 (del (smem s1) orc), EvOk)
@@ -166,7 +165,7 @@ Definition touch_new (c : cfg) (s : state) (k : key) : state :=
 Definition post (c : cfg) (s : state) (k : key) : state :=
   match c_alg c with
   | LRU => lru_compact c s
-  | MRU => w_queue s (queue s ++ [k])
+  | MRU => if mem_key (smem s) k then w_queue s (queue s ++ [k]) else s
   | _ => s
   end.
 
@@ -178,7 +177,6 @@ Definition finish (c : cfg) (s : state) (k orc : key) (v : val) (ev : Z) : state
     let '(s1, r) := purge_block c s k orc in
     match r with
     | EvOk => (post c s1 k, ORet v ev)
-    | EvSelf => (s1, ORet v ev)
     | EvIndexError => (s1, ORaise EIndexError ev)
     end
   end.
